@@ -208,12 +208,13 @@ fn accidental_rem_or_data(segs: &[Seg]) -> bool {
                 }
                 let _ = i;
             }
-            Seg::Prot(_) | Seg::Item(_) => crunched.push('|'),
+            // a marker no free text can contain (non-ASCII free characters become '#')
+            Seg::Prot(_) | Seg::Item(_) => crunched.push('§'),
         }
     }
     for (i, _) in crunched.match_indices("REM") {
         // intended iff directly followed by a protected marker
-        if crunched[i + 3..].starts_with('|') {
+        if crunched[i + 3..].starts_with('§') {
             intended += 1;
         } else {
             return true;
@@ -221,7 +222,7 @@ fn accidental_rem_or_data(segs: &[Seg]) -> bool {
     }
     for (i, _) in crunched.match_indices("DATA") {
         let rest = &crunched[i + 4..];
-        if rest.is_empty() || rest.starts_with('|') || rest.starts_with(':') {
+        if rest.is_empty() || rest.starts_with('§') || rest.starts_with(':') {
             intended += 1;
         } else {
             return true;
